@@ -4,6 +4,8 @@ CONSTANTS
   MaxBody = 2
   Faults = 1
   Stale = {1}
+  NNames = 4
+  AnyName = FALSE
   DirMissing = TRUE
   AnySplit = TRUE
   KeepHist = FALSE
